@@ -264,6 +264,10 @@ IDENTITIES = [
     ("{x} %in% {y}", "{y} + {y}:{x}"),
     ("({x} + {y}) %in% {z}", "{z} / ({x} + {y})"),
     ("{x} : {y} : {z}", "{z} : ({y} : {x})"),
+    # exponent smaller than the number of terms: interactions up to THAT order only
+    ("({x} + {y} + {z} + d) ** 3", "{x} + {y} + {z} + d + {x}:{y} + {x}:{z} + {x}:d + {y}:{z} + {y}:d + {z}:d + {x}:{y}:{z} + {x}:{y}:d + {x}:{z}:d + {y}:{z}:d"),
+    ("({x} + {y} + {z} + d + e) ** 2", "{x} + {y} + {z} + d + e + {x}:{y} + {x}:{z} + {x}:d + {x}:e + {y}:{z} + {y}:d + {y}:e + {z}:d + {z}:e + d:e"),
+    ("({x} + {y} + {z} + d) ^ 3 - {x}:{y}:{z}", "({x} + {y} + {z} + d) ** 2 + {x}:{y}:d + {x}:{z}:d + {y}:{z}:d - {x}:{y}:{z}"),
 ]
 
 
@@ -287,10 +291,10 @@ def _norm(spec, **kw):
 
 def identity(i: int, x: int, y: int, z: int) -> bool:
     """
-    pre: 0 <= i < 40 and 0 <= x < 3 and 0 <= y < 3 and 0 <= z < 3 and i == __SHARD__
+    pre: 0 <= i < 43 and 0 <= x < 3 and 0 <= y < 3 and 0 <= z < 3 and i == __SHARD__
     post: _
     """
-    i, x, y, z = _pick(i, 0, 39), _pick(x, 0, 2), _pick(y, 0, 2), _pick(z, 0, 2)
+    i, x, y, z = _pick(i, 0, 42), _pick(x, 0, 2), _pick(y, 0, 2), _pick(z, 0, 2)
     names = ["a", "b", "c"]
     l, r = IDENTITIES[i]
     sub = dict(x=names[x], y=names[y], z=names[z])
